@@ -102,6 +102,8 @@ class PinchProblem:
         # A newly loaded problem invalidates results cached for the previous one.
         self._results = None
         self._master_zone = None
+        # ... and the project name taken from a previously loaded file does not carry over.
+        self._project_name = 'Untitled'
 
         if isinstance(source, TargetInput):
             self._problem_data = source
